@@ -186,6 +186,17 @@ def run(res, tier, rng, table_diffs=()):
     for d in directed:
         cases.append(("directed", d))
     cases += root_matrix()
+    # HEAP PRESSURE: many objects allocated with no function return in between (hence no collection by the rule "collect at
+    # returns"), their number sweeping every value around the usual thresholds (2^10, 2^11, 2^12) — and then structures built from
+    # FRESH heap values whose elements are, for a moment, only in the machine's hands (popped operands of a list literal, arguments
+    # of a builtin, the left operand of a concatenation): a collection triggered by allocation count at such a point must see them
+    spans = list(range(1000, 1045)) + list(range(2030, 2062, 2)) + list(range(4080, 4112, 4)) if tier == "quick" else \
+        list(range(960, 1100)) + list(range(2000, 2100)) + list(range(4050, 4150)) + list(range(8150, 8250))
+    for n in spans:
+        cases.append(("pressure", "stel i = 0; stel x = 0.5; zolang i < %d { x = x + 1.5; i += 1 }; stel r = [x * 1.5, [x * 2.5, string(i)], \"s\" + string(i)]; "
+                                  "stel k = [[i * 1.0], [[x + 0.25]]]; [r, r[1][0], lengte(r[2]), k, string(x) + string(i)]" % n))
+        cases.append(("pressure-fn", "functie f(a) { a }; stel i = 0; stel x = 0.5; zolang i < %d { x = x + 1.5; i += 1 }; print([x * 2.0, [string(i)]], string(x * 3.0)); "
+                                     "[f([x * 1.5, [x * 2.5]]), [string(i), [x - 0.5]]]" % n))
     run_cases(res, "C03", cases)
 
 
